@@ -1166,6 +1166,17 @@ func c09StructMut(st *c09Step) func(*etree.Element) {
 				cur = cur.CreateElement("a")
 			}
 		}
+	case st.Op == "many-declarations-many-children":
+		// n unused namespace declarations on the Response and n empty children called like the things the SP looks for
+		return func(el *etree.Element) {
+			for i := 0; i < st.N; i++ {
+				el.CreateAttr(fmt.Sprintf("xmlns:a%d", i), "urn:example:unused")
+			}
+			name := []string{"Signature", "Assertion", "EncryptedAssertion"}[st.Variant%3]
+			for i := 0; i < st.N; i++ {
+				el.CreateElement(name)
+			}
+		}
 	case st.Op == "huge-attribute" && st.Variant%2 == 1:
 		return func(el *etree.Element) { el.CreateAttr("Consent", strings.Repeat("A", st.N)) }
 	}
@@ -1941,14 +1952,14 @@ func c09ExecResponse(c *c09Ctx, st *c09Step, k c09Knobs) {
 		body := c09XMLLayer(elBytes(c09BuildResponse(o, t0)), st)
 		cpu0 := c09CPUSeconds()
 		pan = c09Guard(func() { as, err = spv.ParseXMLResponse(body, ids, spv.AcsURL) })
-		if spent, allowed := c09CPUSeconds()-cpu0, 3+12*float64(len(body))/(1<<20); st.Op == "deep-nesting" && pan == nil {
+		if spent, allowed := c09CPUSeconds()-cpu0, 3+12*float64(len(body))/(1<<20); (st.Op == "deep-nesting" || st.Op == "many-declarations-many-children") && pan == nil {
 			// processor time of the consuming call (not the bubble's clock, which does not move while code runs): it has to stay
 			// within a generous linear bound of the input size - what takes 0.1 s at 70 KB and 18 s at 280 KB takes hours at the
 			// size of a POST body
 			c.res.probe("cpu-time-measured-for-deep-nesting")
 			if spent > allowed {
 				c.res.logf("step %d %s: %d KB of input took more than the linear bound of processor time", c.si, st.Entry, len(body)>>10)
-				c.res.violate(c.si, "hang", "C09/blow-up/cpu/"+c09Func(st.Entry)+"/"+shape, fmt.Sprintf("processor time within 3 s + 12 s/MB of input (%.1f s for %d KB)", allowed, len(body)>>10), "more than that", fmt.Sprintf("nesting depth %d", st.N))
+				c.res.violate(c.si, "hang", "C09/blow-up/cpu/"+c09Func(st.Entry)+"/"+shape, fmt.Sprintf("processor time within 3 s + 12 s/MB of input (%.1f s for %d KB)", allowed, len(body)>>10), "more than that", fmt.Sprintf("n=%d", st.N))
 				return
 			}
 		}
@@ -2460,7 +2471,7 @@ func genTotality(g *Rng, tier string) *Plan {
 				st.Omit = []string{c09MetaShapes[2+g.Intn(len(c09MetaShapes)-2)]}
 			}
 		case "corrupt":
-			ops := []string{"hostile-attribute", "hostile-attribute", "hostile-attribute", "hostile-attribute", "hostile-attribute", "truncate", "truncate", "truncate", "truncate", "truncate", "bitflip", "bitflip", "bitflip", "bitflip", "bitflip", "garbage", "garbage", "rootless-document", "rootless-document", "rootless-document", "rootless-document", "deep-nesting", "huge-attribute"}
+			ops := []string{"hostile-attribute", "hostile-attribute", "hostile-attribute", "hostile-attribute", "hostile-attribute", "truncate", "truncate", "truncate", "truncate", "truncate", "bitflip", "bitflip", "bitflip", "bitflip", "bitflip", "garbage", "garbage", "rootless-document", "rootless-document", "rootless-document", "rootless-document", "deep-nesting", "huge-attribute", "many-declarations-many-children"}
 			st.Layer = "xml"
 			switch st.Family {
 			case "response":
@@ -2495,6 +2506,10 @@ func genTotality(g *Rng, tier string) *Plan {
 				st.N = g.Intn(3000)
 			case "deep-nesting":
 				st.N = Pick(g, 10_000, 10_000, 9_999, 10_001, 1_000, 20_000, 40_000, 40_000)
+			case "many-declarations-many-children":
+				st.N = Pick(g, 500, 2000, 4000, 4000)
+				st.Variant = g.Intn(3)
+				st.Layout, st.Encrypt = "A", false
 			case "huge-attribute":
 				st.N = Pick(g, 1<<16, 1<<20, 1<<20, 5<<20)
 			case "ciphervalue-short":
@@ -2688,7 +2703,7 @@ func simplifyTotality(p *Plan) []*Plan {
 				with(i, func(s *c09Step) { s.Omit[j] = to })
 			}
 		}
-		if st.Kind == "corrupt" && !(st.Op == "rootless-document" && st.Layer == "xml") && st.Op != "ciphervalue-short" && st.Op != "encrypted-plaintext" && st.Op != "cipher-algorithm" && st.Op != "strip-keyinfo" && st.Op != "hostile-attribute" && st.Op != "keyinfo-cert-text" && st.Op != "retrieval-method" && st.Op != "encryptedkey-algorithm" && st.Op != "forged-assertion-first" {
+		if st.Kind == "corrupt" && !(st.Op == "rootless-document" && st.Layer == "xml") && st.Op != "ciphervalue-short" && st.Op != "encrypted-plaintext" && st.Op != "cipher-algorithm" && st.Op != "strip-keyinfo" && st.Op != "hostile-attribute" && st.Op != "keyinfo-cert-text" && st.Op != "retrieval-method" && st.Op != "encryptedkey-algorithm" && st.Op != "forged-assertion-first" && st.Op != "many-declarations-many-children" {
 			with(i, func(s *c09Step) {
 				s.Op, s.Layer, s.Variant, s.Pms, s.N, s.Pm = "rootless-document", "xml", 0, nil, 0, 0
 			})
